@@ -269,7 +269,7 @@ fn run_cli(c: &CliCase) -> Result<bool, (String, String)> {
 }
 
 fn line_pool() -> Vec<&'static str> {
-    vec!["a", "b", "é", "ab", "a b", "₿", "abc", "get", "set x", "𝄞𝄞", "help", "abcdefgh", "Жук ест", "0123456789abcdef", "a", "b", "ab", "  ", "x y z w", "0123456789012345678901234567890123456789ABCDE"]
+    vec!["a", "b", "é", "ab", "a b", "₿", "abc", "get", "set x", "𝄞𝄞", "help", "abcdefgh", "Жук ест", "0123456789abcdef", "a", "b", "ab", "  ", " a", "  get", "a ", "x y z w", "0123456789012345678901234567890123456789ABCDE"]
 }
 
 fn cli_case_strategy() -> impl Strategy<Value = CliCase> {
